@@ -8,6 +8,7 @@ import argparse
 import importlib
 import json
 import os
+import re
 import sys
 import time
 import traceback
@@ -31,12 +32,20 @@ def lean_stage(ctx, mod):
     # source pins (one Lean module each, so that a broken pin is attributed to the properties that
     # list it and to no other)
     pins = list(getattr(mod, 'PINS', []))
+
+    def pin_theorem(n):
+        # body pins: theorem FFVerif.Pins.<name>; pins of kernels / branches that used to live in the
+        # property file (module FFVerif.Pins.<Cxx>_<name>): theorem FFVerif.<Cxx>.<name>
+        m = re.match(r'^(C\d\d)_(.+)$', n)
+        return f'FFVerif.{m.group(1)}.{m.group(2)}' if m else f'FFVerif.Pins.{n}'
     if pins and not getattr(mod, '_pins_merged', False):
         mod.LEAN_MODULES = list(getattr(mod, 'LEAN_MODULES', [f'FFVerif.Props.{prop}'])) \
             + [f'FFVerif.Pins.{n}' for n in pins]
-        mod.THEOREMS = list(mod.THEOREMS) + [f'FFVerif.Pins.{n}' for n in pins]
-        mod.GEN_SITES = list(mod.GEN_SITES) + [f'const:pin.{n}' for n in pins]
+        mod.THEOREMS = list(mod.THEOREMS) + [pin_theorem(n) for n in pins]
+        mod.GEN_SITES = list(mod.GEN_SITES) + [f'const:pin.{n}' for n in pins
+                                               if not re.match(r'^C\d\d_', n)]
         mod._pins_merged = True
+    pin_module_of = {pin_theorem(n): f'FFVerif.Pins.{n}' for n in pins}
     with common.Lock():
         report, changed = translate.run()
         ctx.stats['gen_files_changed'] = changed
@@ -83,7 +92,7 @@ def lean_stage(ctx, mod):
             return t if t.startswith('FFVerif.') else f'FFVerif.{prop}.' + t
 
         def buildable(t):
-            return pin_ok[t][0] if t in pin_ok else ok
+            return pin_ok[pin_module_of[t]][0] if t in pin_module_of else ok
         atext = ''.join(f'import {m}\n' for m in good_mods) + ''.join(
             f'#print axioms {full_name(t)}\n' for t in mod.THEOREMS if buildable(t))
         translate.write_if_changed(apath, atext)
@@ -91,9 +100,9 @@ def lean_stage(ctx, mod):
             audit_ok, axioms, alog = common.lean_audit(prop)
     for th in mod.THEOREMS:
         full = full_name(th)
-        if th in pin_ok and not pin_ok[th][0]:
-            ctx.oblige('theorem:' + th, 'theorem', False, pin_ok[th][1])
-        elif th not in pin_ok and not ok:
+        if th in pin_module_of and not pin_ok[pin_module_of[th]][0]:
+            ctx.oblige('theorem:' + th, 'theorem', False, pin_ok[pin_module_of[th]][1])
+        elif th not in pin_module_of and not ok:
             ctx.oblige('theorem:' + th, 'theorem', False,
                        'lake build failed: ' + ' | '.join(bad_decls[:3]) if bad_decls
                        else 'lake build failed: ' + log[-300:])
